@@ -23,9 +23,11 @@ from menpo.shape import PointCloud
 import PIL.Image as _PILImage
 
 # Pillow registers its format plugins lazily (none -> the one being opened -> the five common ones -> all).
-# menpo's image exporter depends on that state (see clause image_fresh_process), which would make the
-# generated clauses depend on which case a worker process happened to run first. They therefore run with
-# Pillow fully initialised; the dependence itself is examined in fresh interpreters by image_fresh_process.
+# menpo's image exporter used to depend on that state (export to .tif/.bmp refused after a PNG import in a
+# fresh interpreter; repaired in /repo), which made the outcome of a generated case depend on which case the
+# worker process happened to run first. The generated clauses therefore run with Pillow fully initialised;
+# the dependence itself is examined in fresh interpreters (which never import this module) by the
+# enumerated clause image_fresh_process.
 _PILImage.init()
 
 PROPERTY = "C16"
@@ -52,6 +54,8 @@ ASSUMPTIONS = [
     "paths: str or pathlib.Path, relative to a cwd inside the temp tree or absolute, with '.', '..' segments; no '~' or '$VAR' spellings",
     "pickled containers (list/dict of objects) are outside the statement ('any menpo object'); only menpo objects are pickled",
     "jpeg is used only as an overwrite target, never for exactness",
+    "generated image clauses run with Pillow fully initialised (PIL.Image.init() at module import) so that a case does not depend on what the worker process did before; the dependence on Pillow's lazy plugin registry is checked separately in fresh interpreters (image_fresh_process)",
+    "for a bare shape written to .ljson and for .pts files the single returned group is used whatever its name (only managers / dicts promise group names)",
 ]
 
 _SKIP_PATH = (".path",)
@@ -244,8 +248,8 @@ def c_ljson(case, ctx):
         try:
             mio.export_landmark_file(obj, _as_fp(p, case["as_path"]))
         except ValueError as e:
-            # the multi-group guard of export_landmark_file compares Path.suffix with '.ljson' case-sensitively,
-            # while every other extension decision in menpo.io is case-insensitive
+            # defect class (repaired in /repo): the multi-group guard of export_landmark_file compared Path.suffix
+            # with '.ljson' case-sensitively, while every other extension decision in menpo.io is case-insensitive
             if form != "shape" and not case["file"].endswith(".ljson") and str(e).startswith("Only the LJSON format supports multiple"):
                 ctx.fail("ljson.multi_group_refused.non_lowercase_extension",
                          "export_landmark_file(<%s of %d groups>, %r) raised %r although the same name is accepted for a single shape"
